@@ -520,6 +520,7 @@ func (e *Engine) Run(t *core.Tape, cfg *core.Config, st *core.Stats) (viol *core
 		}
 	}
 	st.Evals++
+	st.D(uint64(core.NewHash().Str(strings.ReplaceAll(strings.Join(log, "\n"), dir, "DIR"))))
 	if ranLoader {
 		st.Distinct(uint64(core.NewHash().Str(strings.Join(log, "\n"))))
 	}
